@@ -393,6 +393,7 @@ func (g *Gen) probe(e *Expr) *Expr {
 		return e
 	}
 	g.probeCtr++
+	g.curRefs["prelude:trace"] = true
 	g.label("effect probe")
 	return Call("trace", e.T, Str(fmt.Sprintf("t%d", g.probeCtr)), e)
 }
@@ -1101,7 +1102,9 @@ func (g *Gen) callUser(sc *scope, f *FuncSig, resT *Type, depth int, opt ...any)
 // genericCall uses one of the generic helpers of the prelude at type t.
 func (g *Gen) genericCall(sc *scope, t *Type, depth int) *Expr {
 	g.label("generic helper instantiated")
-	g.curRefs["prelude"] = true
+	for _, h := range []string{"idd", "konst", "applyTo", "pair"} {
+		g.curRefs["prelude:"+h] = true
+	}
 	switch g.intn(4, "genericHelper") {
 	case 0:
 		return Call("idd", t, g.expr(sc, t, depth-1))
